@@ -97,12 +97,13 @@ fn kb_get_by_index4() {
     let idx: usize = kani::any();
     kani::assume(idx <= 5);
     let got = get_by_index(doc.as_slice(), idx);
-    if idx < 4 {
-        let want = a[idx].it.doc();
-        assert!(opt_eq(&got, Some(&want)));
-    } else {
-        assert!(got.is_none());
-    }
+    // NOTE: no symbolic indexing into the array of element structs (`a[idx]`): CBMC reported a spurious failure
+    // for that pattern which disappears with the index made concrete; the cases are enumerated instead.
+    if idx == 0 { let w = a[0].it.doc(); assert!(opt_eq(&got, Some(&w))); }
+    else if idx == 1 { let w = a[1].it.doc(); assert!(opt_eq(&got, Some(&w))); }
+    else if idx == 2 { let w = a[2].it.doc(); assert!(opt_eq(&got, Some(&w))); }
+    else if idx == 3 { let w = a[3].it.doc(); assert!(opt_eq(&got, Some(&w))); }
+    else { assert!(got.is_none()); }
     assert!(array_length(doc.as_slice()) == Some(4));
 }
 
@@ -125,7 +126,9 @@ fn kb_get_by_name3() {
     while j < 3 { if want.is_none() && eq(&k[j], &name_it) { want = Some(j); } j += 1; }
     let got = get_by_name(doc.as_slice(), name, ic);
     match want {
-        Some(j) => { let w = v[j].it.doc(); assert!(opt_eq(&got, Some(&w))); }
+        Some(0) => { let w = v[0].it.doc(); assert!(opt_eq(&got, Some(&w))); }
+        Some(1) => { let w = v[1].it.doc(); assert!(opt_eq(&got, Some(&w))); }
+        Some(_) => { let w = v[2].it.doc(); assert!(opt_eq(&got, Some(&w))); }
         None => assert!(got.is_none()),
     }
 }
@@ -147,27 +150,8 @@ fn kb_get_by_name_icase2() {
         else if lower(k[0].pay[0]) == lower(n0) { Some(0) } else if lower(k[1].pay[0]) == lower(n0) { Some(1) } else { None };
     let got = get_by_name(doc.as_slice(), name, true);
     match want {
-        Some(j) => { let w = v[j].it.doc(); assert!(opt_eq(&got, Some(&w))); }
+        Some(0) => { let w = v[0].it.doc(); assert!(opt_eq(&got, Some(&w))); }
+        Some(_) => { let w = v[1].it.doc(); assert!(opt_eq(&got, Some(&w))); }
         None => assert!(got.is_none()),
     }
-}
-
-#[kani::proof]
-#[kani::unwind(34)]
-#[kani::stub(crate::parser::parse_value, no_text)]
-fn xp_gbi4_idx1() {
-    let a = [sc_w2(), sc_float9(), sc_str1(), sc_str2()];
-    let doc = layout_array(&[a[0].it, a[1].it, a[2].it, a[3].it]);
-    let got = get_by_index(doc.as_slice(), 1);
-    let want = a[1].it.doc();
-    assert!(got.is_some());
-    let g = got.unwrap();
-    assert!(g.len() == 17);
-    assert!(want.n == 17);
-    assert!(g[4] == 0x20 && g[7] == 9 && g[8] == 0x60);
-    assert!(want.b[8] == 0x60 && want.b[9] == a[1].it.pay[1]);
-    assert!(g[9] == a[1].it.pay[1]);
-    assert!(g[10] == a[1].it.pay[2]);
-    assert!(g[16] == 0);
-    assert!(want.eq_slice(g.as_slice()));
 }
